@@ -8,6 +8,9 @@ pub mod c03;
 pub mod c04;
 pub mod c05;
 pub mod c06;
+pub mod c07;
+pub mod c08;
+pub mod c11;
 pub mod c15;
 pub mod c17;
 pub mod c20;
@@ -27,6 +30,9 @@ pub fn registry() -> Vec<(&'static str, RunFn, &'static str, ReplayFn)> {
         ("C04", c04::run, c04::RULE, c04::replay),
         ("C05", c05::run, c05::RULE, c05::replay),
         ("C06", c06::run, c06::RULE, c06::replay),
+        ("C07", c07::run, c07::RULE, c07::replay),
+        ("C08", c08::run, c08::RULE, c08::replay),
+        ("C11", c11::run, c11::RULE, c11::replay),
         ("C15", c15::run, c15::RULE, c15::replay),
         ("C17", c17::run, c17::RULE, c17::replay),
         ("C18", c18::run, c18::RULE, c18::replay),
